@@ -2,6 +2,7 @@ CONSTANTS Menu = "C04"
  MaxTail = 2
  Layouts = {"siblings", "nested", "root"}
  AllPlants = FALSE
+ Lite = FALSE
  Flavours <- Flav_shadow
 INIT HInit
 NEXT HNext
